@@ -224,6 +224,23 @@ func (rw *rewriter) file(f *ast.File) {
 					rw.hit("lock", "vrt")
 				}
 			}
+		case "sync.Map":
+			// the order in which sync.Map.Range visits its entries is as arbitrary as that of a map range: SyncMap.Range
+			// and SyncMap.Keys (not Len, whose result cannot depend on it) go through the shim
+			if rw.rel == "lib/query/sync_map.go" && sel.Sel.Name == "Range" && len(call.Args) == 1 {
+				fn := ""
+				for _, d := range f.Decls {
+					if fd, ok := d.(*ast.FuncDecl); ok && fd.Pos() <= call.Pos() && call.End() <= fd.End() {
+						fn = fd.Name.Name
+					}
+				}
+				if fn == "Range" || fn == "Keys" {
+					site := fmt.Sprintf("%s:%s", rw.rel, fn)
+					call.Fun = &ast.SelectorExpr{X: ast.NewIdent("vrt"), Sel: ast.NewIdent("SyncRange")}
+					call.Args = []ast.Expr{sel.X, call.Args[0], &ast.BasicLit{Kind: token.STRING, Value: fmt.Sprintf("%q", site)}}
+					rw.hit("syncmaprange", "vrt")
+				}
+			}
 		case "sync.WaitGroup":
 			if rw.rel == "lib/query/goroutine_manager.go" {
 				to := map[string]string{"Add": "WgAdd", "Done": "WgDone", "Wait": "WgWait"}[sel.Sel.Name]
